@@ -312,4 +312,23 @@ PROPS["C14"] = dict(
     fuzz=[("FuzzC14", 180)],
 )
 
+PROPS["C15"] = dict(
+    pkg="c15",
+    level="fault_enumeration",
+    technique="exhaustive fault enumeration over the dependency-call sequence of each operation (learned in a fault-free run through counting wrappers), with generated inputs (rapid)",
+    level_text=("For each generated input (small well-formed image, signature database, secure-boot variable, identity) the dependency-call sequence of every operation is learned fault-free, then EVERY position k is failed in turn: "
+                "crypto.Signer.Sign (SignPKCS7, SignAuthenticode, SignEFIVariable, PECOFFBinary.Sign, WriteSignedUpdate), the stream reader of SignAuthenticode, every ReadAt of the image reader during Parse, Hash, Sign and Verify "
+                "(kinds: error once, short count + io.ErrUnexpectedEOF once, error from k on), and every Fs/File call (OpenFile/Open, Stat, Read, Write, Close; kinds: error, short write, short read) of WriteVar, WriteSignedUpdate, "
+                "GetVar, the typed getters and the legacy read/write functions. Oracle: the operation returns a non-nil error (Hash: no digest), never a success value; a failed Sign leaves Signatures() and Bytes() of the image object unchanged and a later Sign works; "
+                "a signed update with a failing signer touches the file system not at all; a value returned together with an error is never wrong. The process surviving is observed by the check's case journal (a dying test process is replayed and reported)."),
+    level_note=("Weakest reading taken for one corner only: a Close failure AFTER a fully successful read is recorded (class close_failure_after_successful_read_not_reported) but not raised, because value and error-freeness of the read are not in doubt (os.ReadFile behaves the same). "
+                "A spurious io.EOF from the image reader is not injected (it is the regular end-of-data signal, not a failure)."),
+    rule=("evaluations = number of faulty runs (operation, position k, fault kind) over all generated inputs. Non-trivial = fault position k > 1, i.e. the fault arrives after some dependency calls succeeded; "
+          "distinct by SHA-256 of (operation, fault kind, k, input)."),
+    assumptions=["recfs / failSigner / faultReaderAt inject what they say (self-checked per run)"],
+    exhaustive_note="per generated input: every position of every operation's dependency-call sequence (counts of the last case under extra.dependency_calls_last_case/*)",
+    quick=dict(checks=300, shards=4, timeout=1200, shrinktime=20),
+    thorough=dict(checks=3000, shards=16, timeout=3400, shrinktime=60),
+)
+
 NOT_APPLICABLE = _NA()
